@@ -61,6 +61,8 @@ def _sanitizer_key(stderr):
     """Turn a sanitizer report into a stable key: error class + innermost libhtp frame (function name)."""
     m = re.search(r'SUMMARY: (\w+Sanitizer): (\S+)', stderr)
     kind = m.group(2) if m else None
+    if kind and kind.isdigit():
+        kind = 'leak'           # 'SUMMARY: AddressSanitizer: 861 byte(s) leaked in 3 allocation(s)': the size is not part of the key
     if 'runtime error:' in stderr and not kind:
         m2 = re.search(r'runtime error: ([^\n]*)', stderr)
         kind = 'ub-' + re.sub(r'[^a-z]+', '-', m2.group(1).lower())[:40].strip('-') if m2 else 'ub'
